@@ -25,6 +25,10 @@ def run(ctx):
     ctx.run_rule("R1s", r_round.rule_R1_rust_simd, ["pure-full"] + (["intr-full"] if ctx.tier == "thorough" else []))
     ctx.run_rule("R1r", r_round.rule_R1_refimpl, ["refimpl"])
     import r_asm
+    import r_ffi
+    ctx.prefetch(["asm-full", "intr-full"] if ctx.tier == "thorough" else ["asm-full"])
+    ctx.run_rule("M2", r_ffi.rule_M2, ["asm-full"] + (["intr-full"] if ctx.tier == "thorough" else []))
+    ctx.run_rule("M3", r_ffi.rule_M3, ["pure-full"])
     ctx.run_rule("A9", r_asm.rule_A9)
     ctx.run_rule("K1asm", r_asm.rule_K1asm)
     for name in ("rule_R1_c",):
